@@ -274,6 +274,9 @@ class ClassUtils:
             target.attrs = cls.reduce_attributes(group)
             target.mixed = any(x.mixed for x in group)
             target.nillable = any(x.nillable for x in group)
+            if target.namespace is None and any(x.namespace == "" for x in group):
+                # Unqualified below a qualified ancestor somewhere: never inherit
+                target.namespace = ""
 
             cls.cleanup_class(target)
             result.append(target)
